@@ -799,22 +799,29 @@ Proof.
   - (* sctp already has a mid: by uniqueness of the application section it is this one *)
     pose proof (G4 s x eq_refl Ex) as Hs0. pose proof (A2 s x Hs0 Ex) as Hin.
     apply In_nth_error in Hin. destruct Hin as [j' Hj']. pose proof (Hau _ _ _ _ Hj' Hi) as E. subst j'.
-    rewrite Hi in Hj'. inversion Hj' as [E]. constructor; cbn; rewrite ?G1, ?Es1; auto.
-    + intros s' mu Hs' Hm. inversion Hs'; subst s'. rewrite Ex in Hm. inversion Hm; subst mu. rewrite E. eapply nth_error_In; eauto.
+    rewrite Hi in Hj'. inversion Hj' as [E].
+    constructor; cbn [p_trs p_sctp p_transports set_transports set_sctp set_sctp_mline]; rewrite ?G1, ?Es1.
+    + exact Hali.
+    + intros s' mu Hs' Hm. inversion Hs'; subst s'. rewrite Ex in Hm. inversion Hm; subst mu. rewrite <- E. eapply nth_error_In; eauto.
     + intros j mu Hj Hor. destruct (Nat.eq_dec j i) as [->|Hne].
       * rewrite Hi in Hj. inversion Hj; subst mu. exists s. split; [reflexivity | congruence].
       * assert (Hor' : (j < i)%nat \/ In (2, mu) s0) by (destruct Hor; [left; lia | right; assumption]).
         destruct (A3 j mu Hj Hor') as [s' [Hs' Hm']]. rewrite Hs0 in Hs'. inversion Hs'; subst s'. exists s. auto.
     + intros t Hin. apply remote_transport_roles_has. apply G2. apply A4. exact Hin.
     + intros s' Hs'. inversion Hs'; subst s'. apply remote_transport_roles_has. apply G3. reflexivity.
-  - constructor; cbn; rewrite ?G1; auto.
+    + exact A6.
+  - constructor; cbn [p_trs p_sctp p_transports set_transports set_sctp set_sctp_mline]; rewrite ?G1.
+    + exact Hali.
     + intros s' mu Hs' Hm. inversion Hs'; subst s'. cbn in Hm. inversion Hm; subst mu. eapply nth_error_In; eauto.
     + intros j mu Hj Hor. destruct (Nat.eq_dec j i) as [->|Hne].
       * rewrite Hi in Hj. inversion Hj; subst mu. eexists. split; reflexivity.
       * exfalso. assert (Hor' : (j < i)%nat \/ In (2, mu) s0) by (destruct Hor; [left; lia | right; assumption]).
-        destruct (A3 j mu Hj Hor') as [s' [Hs' Hm']]. subst p1. rewrite Hs' in Es1. inversion Es1; subst s'. congruence.
+        destruct (A3 j mu Hj Hor') as [s' [Hs' Hm']].
+        assert (Es0 : p_sctp p1 = Some s') by (subst p1; rewrite Hs'; exact Hs').
+        rewrite Es1 in Es0. inversion Es0; subst s'. congruence.
     + intros t Hin. apply remote_transport_roles_has. apply G2. apply A4. exact Hin.
     + intros s' Hs'. inversion Hs'; subst s'. cbn. apply remote_transport_roles_has. apply G3. reflexivity.
+    + exact A6.
 Qed.
 
 Lemma remote_media_rinv : forall T ty s0 ss ms i p p',
@@ -838,4 +845,866 @@ Proof.
         -- intros j mu Hj Hor. destruct (Nat.eq_dec j i) as [->|Hne].
            ++ rewrite Hi in Hj. inversion Hj as [[E E']]. rewrite E in E2. discriminate.
            ++ apply (A3 j mu Hj). destruct Hor; [left; lia | right; assumption].
+Qed.
+
+(* ---- BUNDLE handling keeps transports resolvable -------------------------------------------------------- *)
+Lemma apply_bundle_tr : forall fixed items p p', apply_bundle fixed items p = Ok p' ->
+  (forall t, In t (p_trs p) -> has_tr (p_transports p) (t_transport t)) ->
+  (forall s, p_sctp p = Some s -> has_tr (p_transports p) (s_transport s)) ->
+  (forall t, In t (p_trs p') -> has_tr (p_transports p') (t_transport t)) /\
+  (forall s, p_sctp p' = Some s -> has_tr (p_transports p') (s_transport s)).
+Proof.
+  intros fixed items p p' H W9 W10. unfold apply_bundle in H.
+  destruct items as [|primary slaves]; [inversion H; subst; auto|].
+  match type of H with context [match ?pt with Some prim => _ | None => _ end] => destruct pt as [prim|] eqn:Ept end.
+  - assert (Hprim : has_tr (p_transports p) prim).
+    { revert Ept. destruct (p_sctp p) as [s|] eqn:Es.
+      - destruct (opt_eqb Z.eqb (s_mid s) (Some primary)).
+        + intro E. inversion E; subst. apply W10. reflexivity.
+        + destruct (find (mid_is primary) (p_trs p)) as [t|] eqn:Ef; [|discriminate].
+          intro E. inversion E; subst. apply W9. apply find_some in Ef. tauto.
+      - destruct (find (mid_is primary) (p_trs p)) as [t|] eqn:Ef; [|discriminate].
+        intro E. inversion E; subst. apply W9. apply find_some in Ef. tauto. }
+    inversion H; subst p'; clear H. cbn [p_trs p_sctp p_transports set_transports set_sctp set_trs]. split.
+    + intros t Hin. apply in_map_iff in Hin. destruct Hin as [t0 [E Hin0]]. apply has_tr_map; [intro x; destruct (existsb _ _); reflexivity|].
+      subst t. repeat match goal with |- context [if ?c then _ else _] => destruct c end; cbn; auto.
+    + intros s Hs. apply has_tr_map; [intro x; destruct (existsb _ _); reflexivity|].
+      destruct (p_sctp p) as [s0|] eqn:Es; [|discriminate].
+      revert Hs. repeat match goal with |- context [if ?c then _ else _] => destruct c end; intro Hs; inversion Hs; subst; cbn; auto.
+  - match type of H with (if ?c then _ else _) = _ => destruct c end; [discriminate|]. inversion H; subst. auto.
+Qed.
+
+Lemma map_core_akey : forall (g : transceiver -> transceiver) trs, (forall t, core (g t) = core t) ->
+  map akey (map g trs) = map akey trs.
+Proof.
+  intros g trs H. rewrite map_map. apply map_ext. intro t. specialize (H t). apply core_fields in H.
+  unfold akey. destruct H as [-> [_ [-> [-> _]]]]. reflexivity.
+Qed.
+
+(* ---- (R) setRemoteDescription keeps the connection aligned with the new section list ------------------------ *)
+Lemma nth_error_secs : forall ms j m, nth_error ms j = Some m -> nth_error (secs_of ms) j = Some (m_kind m, m_mid m).
+Proof. intros ms j m H. unfold secs_of. rewrite nth_error_map, H. reflexivity. Qed.
+
+Lemma set_remote_description_wfs : forall fixed T p d p' s0,
+  set_remote_description fixed T p d = Ok p' ->
+  wfs T p s0 -> extends (secs_of (d_media d)) s0 ->
+  NoDup (map m_mid (d_media d)) -> app_unique (secs_of (d_media d)) -> kinds_ok (secs_of (d_media d)) ->
+  wfs T p' (secs_of (d_media d)).
+Proof.
+  intros fixed T p d p' s0 H W Hext Hnd Hau Hk. unfold set_remote_description in H.
+  destruct (validate_description p d false) as [[]| | |] eqn:Ev; cbn [bind] in H; try discriminate.
+  bind_inv H p1 Hp1. bind_inv H p2 Hp2. inversion H; subst p'; clear H.
+  set (ss := secs_of (d_media d)) in *.
+  assert (Hnd' : NoDup (map snd ss)) by (subst ss; rewrite secs_of_mids; exact Hnd).
+  destruct W as [W1 W2 W3 W4 W5 W6 W7 W8 W9].
+  assert (R0 : rinv T 0 s0 p ss).
+  { constructor; auto.
+    - apply ali_start; auto.
+    - intros s mu Hs Hm. pose proof (W6 s mu Hs Hm) as Hin. apply In_nth_error in Hin. destruct Hin as [j Hj].
+      eapply nth_error_In. apply Hext. exact Hj.
+    - intros j mu Hj [Hlt|Hin]; [lia | apply W5; exact Hin]. }
+  assert (R1 : rinv T (0 + length (d_media d)) s0 p1 ss).
+  { eapply remote_media_rinv; eauto. intros j m Hj. cbn. subst ss. apply nth_error_secs. exact Hj. }
+  cbn [Nat.add] in R1. destruct R1 as [A1 A2 A3 A4 A5 A6].
+  assert (Elen : length ss = length (d_media d)) by (subst ss; unfold secs_of; apply map_length).
+  rewrite <- Elen in A1, A3. apply ali_end in A1.
+  destruct (remote_media_seen _ _ _ _ _ _ Hp1) as [S1 [S2 _]].
+  destruct (apply_bundle_spec _ _ _ _ Hp2) as [[g [G1 G2]] [G3 [_ G5]]].
+  destruct (apply_bundle_tr _ _ _ _ Hp2 A4 A5) as [B1 B2].
+  assert (Hseen : p_seen p2 = p_seen p1) by (unfold same_session in G3; tauto).
+  assert (Fin : wfs T p2 ss).
+  { constructor; auto.
+    - rewrite Hseen. unfold ss. rewrite secs_of_mids. exact S2.
+    - rewrite G1. eapply aligned_keys; [|exact A1]. symmetry. apply map_core_akey. exact G2.
+    - intros mu Hin. apply In_nth_error in Hin. destruct Hin as [j Hj].
+      assert (Hlt : (j < length ss)%nat) by (apply nth_error_Some; congruence).
+      destruct (A3 j mu Hj (or_introl Hlt)) as [s [Hs Hm]].
+      rewrite Hs in G5. destruct (p_sctp p2) as [s'|]; [|contradiction]. exists s'. split; [reflexivity | congruence].
+    - intros s' mu Hs' Hm. rewrite Hs' in G5. destruct (p_sctp p1) as [s|] eqn:Es; [|contradiction].
+      apply (A2 s mu eq_refl). congruence.
+    - rewrite G1. intros t Hin. apply in_map_iff in Hin. destruct Hin as [t0 [<- Hin0]].
+      pose proof (core_fields _ _ (G2 t0)) as [E1 [_ [_ [_ [_ [_ [E7 _]]]]]]]. rewrite E1, E7. apply A6. exact Hin0. }
+  destruct Fin as [F1 F2 F3 F4 F5 F6 F7 F8 F9].
+  destruct (d_type d =? 1); constructor; cbn; assumption.
+Qed.
+
+(* ---- (A) setLocalDescription(answer) on an aligned connection changes nothing the invariant sees ---------- *)
+Lemma wfs_transfer : forall T p q ss,
+  wfs T p ss -> incl (p_seen p) (p_seen q) -> map tinfo (p_trs q) = map tinfo (p_trs p) ->
+  p_sctp q = p_sctp p -> (forall id, has_tr (p_transports p) id -> has_tr (p_transports q) id) -> wfs T q ss.
+Proof.
+  intros T p q ss [W1 W2 W3 W4 W5 W6 W7 W8 W9] Hs Ht Hsc Htr. constructor; rewrite ?Hsc; auto.
+  - eapply incl_tran; eauto.
+  - eapply aligned_keys; [|exact W4]. symmetry. apply map_tinfo_akey. exact Ht.
+  - intros t' Hin. destruct (map_tinfo_In _ _ _ (eq_sym Ht) Hin) as [t [Hin' E]]. apply tinfo_fields in E.
+    destruct E as [_ [E _]]. rewrite <- E. apply Htr. apply W7. exact Hin'.
+  - intros t' Hin. destruct (map_tinfo_In _ _ _ (eq_sym Ht) Hin) as [t [Hin' E]]. apply tinfo_fields in E.
+    destruct E as [Ek [_ Ep]]. apply akey_fields in Ek. destruct Ek as [Ek _]. rewrite <- Ek, <- Ep. apply W9. exact Hin'.
+Qed.
+
+Lemma set_mid_same : forall t mu, t_mid t = Some mu -> set_mid mu t = t.
+Proof. intros t mu H. destruct t. cbn in *. subst. reflexivity. Qed.
+
+Lemma set_mline_same : forall t i, t_mline t = Some i -> set_mline i t = t.
+Proof. intros t i H. destruct t. cbn in *. subst. reflexivity. Qed.
+
+Lemma aligned_mline_mid : forall trs ss i k mu t, aligned trs ss -> NoDup (map snd ss) ->
+  nth_error ss i = Some (k, mu) -> In t trs -> t_mline t = Some i -> t_mid t = Some mu /\ t_kind t = k.
+Proof.
+  intros trs ss i k mu t A Hnd Hi Hin Hl. destruct (t_mid t) as [x|] eqn:Em.
+  - destruct (al_mid _ _ A t x Hin Em) as [j [E1 E2]]. rewrite Hl in E1. inversion E1; subst j.
+    rewrite Hi in E2. inversion E2; subst. auto.
+  - pose proof (al_none _ _ A t Hin Em) as E. congruence.
+Qed.
+
+Lemma assign_mids_same : forall ss ms i p p',
+  assign_mids ms i p = Ok p' -> NoDup (map snd ss) ->
+  (forall j m, nth_error ms j = Some m -> nth_error ss (i + j) = Some (m_kind m, m_mid m)) ->
+  aligned (p_trs p) ss -> (forall mu, In (2, mu) ss -> exists s, p_sctp p = Some s /\ s_mid s = Some mu) ->
+  p_trs p' = p_trs p /\ p_sctp p' = p_sctp p /\ p_transports p' = p_transports p.
+Proof.
+  intros ss. induction ms as [|m ms IH]; intros i p p' H Hnd Hss A Hsc; cbn [assign_mids] in H.
+  - inversion H; subst. auto.
+  - pose proof (Hss O m eq_refl) as Hi. rewrite Nat.add_0_r in Hi.
+    assert (Hss' : forall j x, nth_error ms j = Some x -> nth_error ss (Datatypes.S i + j) = Some (m_kind x, m_mid x)).
+    { intros j x Hj. specialize (Hss (Datatypes.S j) x Hj). rewrite Nat.add_succ_r in Hss. exact Hss. }
+    destruct (is_av (m_kind m)).
+    + cbn [p_trs set_seen] in H.
+      destruct (find_idx (mline_is i) (p_trs p)) as [k|] eqn:Ef; [|discriminate].
+      destruct (find_idx_nth _ _ _ _ Ef) as [t [Ht [Hml _]]].
+      assert (Hl : t_mline t = Some i).
+      { unfold mline_is in Hml. destruct (t_mline t) as [x|]; cbn in Hml; [apply Nat.eqb_eq in Hml; congruence | discriminate]. }
+      destruct (aligned_mline_mid _ _ _ _ _ _ A Hnd Hi (nth_error_In _ _ Ht) Hl) as [Hm _].
+      assert (Eu : upd k (set_mid (m_mid m)) (p_trs p) = p_trs p).
+      { apply upd_id. intros x Hx. rewrite Ht in Hx. inversion Hx; subst x. apply set_mid_same. exact Hm. }
+      rewrite Eu in H. apply IH in H; auto.
+    + destruct (m_kind m =? 2) eqn:E2.
+      * cbn [p_sctp set_seen] in H. destruct (p_sctp p) as [s|] eqn:Es; [|discriminate].
+        apply Z.eqb_eq in E2. rewrite E2 in Hi.
+        destruct (Hsc (m_mid m) (nth_error_In _ _ Hi)) as [s' [Es' Hm]]. try rewrite Es in Es'. inversion Es'; subst s'.
+        assert (Eq : mkSctp (Some (m_mid m)) (s_bundled s) (s_transport s) = s) by (destruct s; cbn in *; subst; reflexivity).
+        rewrite Eq in H. apply IH in H; auto.
+      * apply IH in H; auto.
+Qed.
+
+Lemma local_roles_tr : forall ms i p p', local_roles ms i p = Ok p' ->
+  forall id, has_tr (p_transports p) id -> has_tr (p_transports p') id.
+Proof.
+  induction ms as [|m ms IH]; intros i p p' H id Hid; cbn [local_roles] in H.
+  - inversion H; subst. exact Hid.
+  - destruct (is_av (m_kind m)).
+    + destruct (find (mline_is i) (p_trs p)); [|discriminate]. eapply IH; [exact H|]. cbn. apply has_tr_upd; auto.
+    + destruct (m_kind m =? 2).
+      * destruct (p_sctp p); [|discriminate]. eapply IH; [exact H|]. cbn. apply has_tr_upd; auto.
+      * eapply IH; eauto.
+Qed.
+
+Lemma local_directions_tinfo : forall fixed trs trs', local_directions fixed trs = Ok trs' -> map tinfo trs' = map tinfo trs.
+Proof.
+  intro fixed. induction trs as [|t ts IH]; intros trs' H; cbn [local_directions] in H.
+  - inversion H; subst. reflexivity.
+  - bind_inv H t' Ht'. bind_inv H ts' Hts'. inversion H; subst. cbn [map]. rewrite (IH _ Hts'). f_equal.
+    destruct (t_offerDirection t).
+    + bind_inv Ht' dd Hdd. inversion Ht'; subst. reflexivity.
+    + destruct fixed; [inversion Ht'; subst; reflexivity|]. bind_inv Ht' dd Hdd. inversion Ht'; subst. reflexivity.
+Qed.
+
+Lemma set_local_answer_wfs : forall fixed T p d p',
+  set_local_description fixed p d = Ok p' -> d_type d = 1 ->
+  wfs T p (secs_of (d_media d)) -> wfs T p' (secs_of (d_media d)).
+Proof.
+  intros fixed T p d p' H Ht W. unfold set_local_description in H.
+  destruct (match p_state p with Closed => true | _ => false end); [discriminate|].
+  destruct (validate_description p d true) as [[]| | |] eqn:Ev; cbn [bind] in H; try discriminate.
+  rewrite Ht in H. cbn [Z.eqb] in H.
+  bind_inv H p2 Hp2. bind_inv H p4 Hp4. bind_inv H p5 Hp5. inversion H; subst p'; clear H.
+  bind_inv Hp5 trs Htrs. inversion Hp5; subst p5; clear Hp5.
+  pose proof W as [W1 W2 W3 W4 W5 W6 W7 W8 W9].
+  destruct (assign_mids_spec _ _ _ _ Hp2) as [_ [A2 _]]. cbn in A2.
+  assert (Hss : forall j m, nth_error (d_media d) j = Some m -> nth_error (secs_of (d_media d)) (0 + j) = Some (m_kind m, m_mid m))
+    by (intros j m Hj; apply nth_error_secs; exact Hj).
+  destruct (assign_mids_same _ _ _ _ _ Hp2 W1 Hss W4 W5) as [B1 [B2 B3]]. cbn in B1, B2, B3.
+  destruct (local_roles_spec _ _ _ _ Hp4) as [_ [C2 [C3 [C4 _]]]].
+  pose proof (local_roles_tr _ _ _ _ Hp4) as C5.
+  pose proof (local_directions_tinfo _ _ _ Htrs) as D1.
+  eapply wfs_transfer; [exact W | | | |].
+  - cbn. rewrite C2. exact A2.
+  - cbn. rewrite D1, C3, B1. reflexivity.
+  - cbn. rewrite C4, B2. reflexivity.
+  - cbn. intros id Hid. apply C5. rewrite B3. exact Hid.
+Qed.
+
+(* ---- (O) createOffer on a well-formed connection ------------------------------------------------------------ *)
+Definition offered (T : tables) (t : transceiver) : Prop :=
+  filter_preferred_codecs (CODECS T (t_kind t)) (t_preferred t) = Ok (t_codecs t) /\
+  t_exts t = HEADER_EXTENSIONS T (t_kind t).
+
+Lemma offer_codecs_spec : forall T trs trs0, offer_codecs T trs = Ok trs0 ->
+  map tinfo trs0 = map tinfo trs /\ (forall t0, In t0 trs0 -> offered T t0) /\ length trs0 = length trs.
+Proof.
+  intro T. induction trs as [|t ts IH]; intros trs0 H; cbn [offer_codecs] in H.
+  - inversion H; subst. split; [reflexivity|]. split; [intros ? []| reflexivity].
+  - bind_inv H cs Hcs. bind_inv H ts' Hts'. inversion H; subst. destruct (IH _ Hts') as [I1 [I2 I3]].
+    split; [cbn [map]; rewrite I1; reflexivity|]. split; [|cbn; rewrite I3; reflexivity].
+    intros t0 [<-|Hin]; [|apply I2; exact Hin]. unfold offered. cbn. auto.
+Qed.
+
+Lemma secs_of_cons : forall m l, secs_of (m :: l) = (m_kind m, m_mid m) :: secs_of l.
+Proof. reflexivity. Qed.
+
+Definition from_transceiver (trs : list transceiver) (m : media) : Prop :=
+  is_av (m_kind m) = true ->
+  exists t, In t trs /\ t_mid t = Some (m_mid m) /\ m_kind m = t_kind t /\ m_codecs m = t_codecs t /\
+            m_exts m = t_exts t /\ m_dir m = Some (t_direction t) /\ m_role m = RAuto.
+
+Lemma offer_existing_same : forall ss ms i trs hs sm trs' out sm',
+  offer_existing ms i trs hs sm = Ok (trs', out, sm') -> aligned trs ss -> NoDup (map snd ss) ->
+  (forall j m, nth_error ms j = Some m -> nth_error ss (i + j) = Some (m_kind m, m_mid m)) ->
+  (forall j m, nth_error ms j = Some m -> is_av (m_kind m) = true \/ m_kind m = 2) ->
+  trs' = trs /\ secs_of out = secs_of ms /\ Forall (from_transceiver trs) out /\
+  (forall m, In m out -> m_kind m = 2 -> hs = true).
+Proof.
+  intros ss. induction ms as [|m ms IH]; intros i trs hs sm trs' out sm' H A Hnd Hss Hk; cbn [offer_existing] in H.
+  - inversion H; subst. split; [reflexivity|]. split; [reflexivity|]. split; [constructor | intros ? []].
+  - pose proof (Hss O m eq_refl) as Hi. rewrite Nat.add_0_r in Hi.
+    assert (Hss' : forall j x, nth_error ms j = Some x -> nth_error ss (Datatypes.S i + j) = Some (m_kind x, m_mid x)).
+    { intros j x Hj. specialize (Hss (Datatypes.S j) x Hj). rewrite Nat.add_succ_r in Hss. exact Hss. }
+    assert (Hk' : forall j x, nth_error ms j = Some x -> is_av (m_kind x) = true \/ m_kind x = 2)
+      by (intros j x Hj; apply (Hk (Datatypes.S j) x Hj)).
+    destruct (is_av (m_kind m)) eqn:Eav.
+    + destruct (find_idx (mid_is (m_mid m)) trs) as [k|] eqn:Ef; [|discriminate].
+      destruct (find_idx_nth _ _ _ _ Ef) as [t [Ht [Hmid _]]]. apply mid_is_true in Hmid.
+      pose proof (nth_error_In _ _ Ht) as Hin.
+      destruct (al_mid _ _ A t _ Hin Hmid) as [j [E1 E2]].
+      destruct (secs_nth_mid_inj _ _ _ _ _ _ Hnd E2 Hi) as [-> Ekind].
+      assert (Eu : upd k (set_mline i) trs = trs).
+      { apply upd_id. intros x Hx. rewrite Ht in Hx. inversion Hx; subst x. apply set_mline_same. exact E1. }
+      rewrite Eu, Ht in H. bind_inv H r Hr. destruct r as [[trs2 out2] sm2]. inversion H; subst trs' out sm'; clear H.
+      destruct (IH _ _ _ _ _ _ _ Hr A Hnd Hss' Hk') as [I1 [I2 [I3 I4]]]. subst trs2.
+      split; [reflexivity|]. split; [rewrite !secs_of_cons, I2; cbn [m_kind m_mid media_for_transceiver]; rewrite Ekind; reflexivity|]. split.
+      * constructor; [|exact I3]. intros _. exists t. cbn. repeat split; auto.
+      * intros x [<-|Hx]; [cbn; intro E; rewrite Ekind in E; rewrite E in Eav; discriminate | apply I4; exact Hx].
+    + destruct (m_kind m =? 2) eqn:E2.
+      * destruct hs; [|discriminate]. bind_inv H r Hr. destruct r as [[trs2 out2] sm2]. inversion H; subst trs' out sm'; clear H.
+        destruct (IH _ _ _ _ _ _ _ Hr A Hnd Hss' Hk') as [I1 [I2 [I3 I4]]].
+        split; [exact I1|]. apply Z.eqb_eq in E2. split; [rewrite !secs_of_cons, I2; cbn [m_kind m_mid media_for_sctp]; rewrite E2; reflexivity|]. split.
+        -- constructor; [|exact I3]. intro Hc. cbn in Hc. discriminate.
+        -- intros x _ _. reflexivity.
+      * exfalso. destruct (Hk O m eq_refl) as [Q|Q]; [congruence | rewrite Q in E2; discriminate].
+Qed.
+
+(* ---- new m-sections: createOffer numbers them, setLocalDescription(offer) names them ------------------------ *)
+Lemma assign_mids_app : forall a b i p, assign_mids (a ++ b) i p =
+  bind (assign_mids a i p) (fun p1 => assign_mids b (i + length a) p1).
+Proof.
+  induction a as [|m a IH]; intros b i p; cbn [app assign_mids length].
+  - rewrite Nat.add_0_r. reflexivity.
+  - replace (i + Datatypes.S (length a))%nat with (Datatypes.S i + length a)%nat by lia.
+    destruct (is_av (m_kind m)).
+    + destruct (find_idx (mline_is i) (p_trs (set_seen p (sadd (m_mid m) (p_seen p))))); [apply IH | reflexivity].
+    + destruct (m_kind m =? 2).
+      * destruct (p_sctp (set_seen p (sadd (m_mid m) (p_seen p)))); [apply IH | reflexivity].
+      * apply IH.
+Qed.
+
+(* what setLocalDescription(offer) makes of the transceivers that had no mid: mids in the order of `mids` *)
+Fixpoint assign_new (trs : list transceiver) (next : nat) (mids : list Z) : list transceiver :=
+  match trs with
+  | [] => []
+  | t :: ts =>
+      match t_mid t with
+      | Some _ => t :: assign_new ts next mids
+      | None => match mids with
+                | mu :: mids' => set_mid mu (set_mline next t) :: assign_new ts (Datatypes.S next) mids'
+                | [] => t :: ts
+                end
+      end
+  end.
+
+Lemma mline_is_true : forall i t, mline_is i t = true -> t_mline t = Some i.
+Proof.
+  intros i t H. unfold mline_is in H. destruct (t_mline t) as [x|]; cbn in H; [apply Nat.eqb_eq in H; congruence | discriminate].
+Qed.
+
+Lemma mline_is_false : forall i t, t_mline t <> Some i -> mline_is i t = false.
+Proof.
+  intros i t H. unfold mline_is. destruct (t_mline t) as [x|]; cbn; [|reflexivity].
+  destruct (Nat.eqb_spec x i); [subst; congruence | reflexivity].
+Qed.
+
+Definition below (n : nat) (t : transceiver) : Prop := forall j, t_mline t = Some j -> (j < n)%nat.
+
+Lemma new_part : forall rest pre next mids rest' out mids',
+  offer_new rest next mids = Ok (rest', out, mids') ->
+  (forall y, In y pre -> below next y) ->
+  (forall y, In y rest -> match t_mid y with Some _ => below next y | None => t_mline y = None end) ->
+  (forall y, In y rest -> is_av (t_kind y) = true) ->
+  forall p, p_trs p = pre ++ rest' ->
+  exists p', assign_mids out next p = Ok p' /\
+             p_trs p' = pre ++ assign_new rest next (map m_mid out) /\
+             p_sctp p' = p_sctp p /\ p_transports p' = p_transports p /\ same_descs p p' /\
+             incl (p_seen p) (p_seen p') /\ incl (map m_mid out) (p_seen p') /\
+             (forall mu, In mu (p_seen p') -> In mu (p_seen p) \/ In mu (map m_mid out)).
+Proof.
+  induction rest as [|t ts IH]; intros pre next mids rest' out mids' H Hpre Hrest Hkind p Hp; cbn [offer_new] in H.
+  - inversion H; subst. cbn [assign_mids assign_new map]. exists p. rewrite Hp.
+    repeat split; auto using incl_refl; try (unfold same_descs; tauto). intros x [].
+  - destruct (t_mid t) as [x|] eqn:Em.
+    + bind_inv H r Hr. destruct r as [[ts' out2] mids2]. inversion H; subst rest' out mids'; clear H.
+      assert (Hp' : p_trs p = (pre ++ [t]) ++ ts') by (rewrite Hp, <- app_assoc; reflexivity).
+      destruct (IH (pre ++ [t]) _ _ _ _ _ Hr) with (p := p) as [p' [I1 [I2 [I3 [I4 [I5 [I6 [I7 I8]]]]]]]]; auto.
+      * intros y Hy. apply in_app_or in Hy. destruct Hy as [Hy|[<-|[]]]; [apply Hpre; exact Hy|].
+        specialize (Hrest t (or_introl eq_refl)). rewrite Em in Hrest. exact Hrest.
+      * intros y Hy. apply Hrest. right. exact Hy.
+      * intros y Hy. apply Hkind. right. exact Hy.
+      * exists p'. split; [exact I1|]. split; [rewrite I2; cbn [assign_new]; rewrite Em, <- app_assoc; reflexivity|].
+        split; [exact I3|]. split; [exact I4|]. split; [exact I5|]. split; [exact I6|]. split; [exact I7 | exact I8].
+    + bind_inv H m Hm. bind_inv H r Hr. destruct r as [[ts' out2] mids2]. inversion H; subst rest' out mids'; clear H.
+      pose proof (Hrest t (or_introl eq_refl)) as Hl. rewrite Em in Hl.
+      cbn [assign_mids map m_mid media_for_transceiver m_kind].
+      assert (Hk : is_av (t_kind (set_mline next t)) = true) by (cbn; apply Hkind; left; reflexivity).
+      rewrite Hk. cbn [p_trs set_seen]. rewrite Hp.
+      assert (Ef : find_idx (mline_is next) (pre ++ set_mline next t :: ts') = Some (length pre)).
+      { apply (find_idx_unique _ _ _ _ (set_mline next t)).
+        - apply nth_error_split.
+        - unfold mline_is. cbn. apply Nat.eqb_refl.
+        - intros j y Hj Hy. apply mline_is_true in Hy.
+          destruct (nth_error_mid_cases _ _ _ _ _ _ Hj) as [[L Hin]|[[E _]|[L Hin]]]; [|exact E|].
+          + specialize (Hpre y Hin next Hy). lia.
+          + exfalso. (* elements after it come from ts: their m-line is below next, or above it *)
+            clear - Hr Hin Hy Hrest.
+            assert (G : forall ts next mids ts' out mids', offer_new ts next mids = Ok (ts', out, mids') ->
+                        forall y, In y ts' -> (In y ts /\ t_mid y <> None) \/ (exists n, (next <= n)%nat /\ t_mline y = Some n /\ t_mid y = None)).
+            { clear. induction ts as [|t ts IH]; intros next mids ts' out mids' H y Hy; cbn [offer_new] in H.
+              - inversion H; subst. destruct Hy.
+              - destruct (t_mid t) eqn:Em.
+                + bind_inv H r Hr. destruct r as [[a b] c]. inversion H; subst.
+                  destruct Hy as [<-|Hy]; [left; split; [left; reflexivity | congruence]|].
+                  destruct (IH _ _ _ _ _ Hr y Hy) as [[Q1 Q2]|[n [Q1 Q2]]]; [left; split; [right; exact Q1 | exact Q2] | right; exists n; auto].
+                + bind_inv H m Hm. bind_inv H r Hr. destruct r as [[a b] c]. inversion H; subst.
+                  destruct Hy as [<-|Hy]; [right; exists next; cbn; auto|].
+                  destruct (IH _ _ _ _ _ Hr y Hy) as [[Q1 Q2]|[n [Q1 Q2]]]; [left; split; [right; exact Q1 | exact Q2] | right; exists n; split; [lia | exact Q2]]. }
+            destruct (G _ _ _ _ _ _ Hr y Hin) as [[Q1 Q2]|[n [Q1 [Q2 _]]]].
+            * specialize (Hrest y (or_intror Q1)). destruct (t_mid y); [|congruence]. specialize (Hrest next Hy). lia.
+            * rewrite Hy in Q2. inversion Q2. lia. }
+      rewrite Ef. rewrite upd_split.
+      set (p1 := set_trs (set_seen p (sadd m (p_seen p))) (pre ++ set_mid m (set_mline next t) :: ts')).
+      assert (Hp1 : p_trs p1 = (pre ++ [set_mid m (set_mline next t)]) ++ ts') by (subst p1; cbn; rewrite <- app_assoc; reflexivity).
+      destruct (IH (pre ++ [set_mid m (set_mline next t)]) _ _ _ _ _ Hr) with (p := p1) as [p' [I1 [I2 [I3 [I4 [I5 [I6 [I7 I8]]]]]]]]; auto.
+      * intros y Hy. apply in_app_or in Hy. destruct Hy as [Hy|[<-|[]]].
+        -- intros j Hj. specialize (Hpre y Hy j Hj). lia.
+        -- intros j Hj. cbn in Hj. inversion Hj. lia.
+      * intros y Hy. specialize (Hrest y (or_intror Hy)). destruct (t_mid y); [|exact Hrest]. intros j Hj. specialize (Hrest j Hj). lia.
+      * intros y Hy. apply Hkind. right. exact Hy.
+      * destruct (sadd_incl m (p_seen p)) as [S1 S2].
+        exists p'. split; [exact I1|]. split.
+        -- rewrite I2. cbn [assign_new map m_mid]. rewrite Em, <- app_assoc. reflexivity.
+        -- subst p1. cbn in I3, I4, I5, I6, I8. split; [exact I3|]. split; [exact I4|].
+           split; [unfold same_descs in *; cbn in I5; tauto|].
+           split; [eapply incl_tran; eauto|].
+           split; [intros z [<-|Hz]; [apply I6; exact S2 | apply I7; exact Hz]|].
+           intros mu Hmu. destruct (I8 mu Hmu) as [Q|Q]; [|right; right; exact Q].
+           unfold sadd in Q. destruct (existsb (Z.eqb m) (p_seen p)); [left; exact Q|].
+           destruct Q as [<-|Q]; [right; left; reflexivity | left; exact Q].
+Qed.
+
+Lemma offer_existing_total : forall ss ms i trs hs sm,
+  aligned trs ss -> NoDup (map snd ss) ->
+  (forall j m, nth_error ms j = Some m -> nth_error ss (i + j) = Some (m_kind m, m_mid m)) ->
+  (forall j m, nth_error ms j = Some m -> is_av (m_kind m) = true \/ (m_kind m = 2 /\ hs = true)) ->
+  exists out sm', offer_existing ms i trs hs sm = Ok (trs, out, sm').
+Proof.
+  intros ss. induction ms as [|m ms IH]; intros i trs hs sm A Hnd Hss Hk; cbn [offer_existing].
+  - eexists. eexists. reflexivity.
+  - pose proof (Hss O m eq_refl) as Hi. rewrite Nat.add_0_r in Hi.
+    assert (Hss' : forall j x, nth_error ms j = Some x -> nth_error ss (Datatypes.S i + j) = Some (m_kind x, m_mid x)).
+    { intros j x Hj. specialize (Hss (Datatypes.S j) x Hj). rewrite Nat.add_succ_r in Hss. exact Hss. }
+    assert (Hk' : forall j x, nth_error ms j = Some x -> is_av (m_kind x) = true \/ (m_kind x = 2 /\ hs = true))
+      by (intros j x Hj; apply (Hk (Datatypes.S j) x Hj)).
+    destruct (is_av (m_kind m)) eqn:Eav.
+    + destruct (al_sec _ _ A i _ _ Hi Eav) as [t [Hin Hm]].
+      apply In_nth_error in Hin. destruct Hin as [k Hk0].
+      assert (Ef : find_idx (mid_is (m_mid m)) trs = Some k).
+      { apply (find_idx_unique _ _ _ _ t Hk0).
+        - unfold mid_is. rewrite Hm. cbn. apply Z.eqb_refl.
+        - intros j y Hj Hy. apply mid_is_true in Hy. exact (al_uniq _ _ A j k y t _ Hj Hk0 Hy Hm). }
+      rewrite Ef.
+      destruct (al_mid _ _ A t _ (nth_error_In _ _ Hk0) Hm) as [j [E1 E2]].
+      destruct (secs_nth_mid_inj _ _ _ _ _ _ Hnd E2 Hi) as [-> Ekind].
+      assert (Eu : upd k (set_mline i) trs = trs).
+      { apply upd_id. intros x Hx. rewrite Hk0 in Hx. inversion Hx; subst x. apply set_mline_same. exact E1. }
+      rewrite Eu, Hk0. destruct (IH (Datatypes.S i) trs hs sm A Hnd Hss' Hk') as [out [sm' E]]. rewrite E. cbn [bind].
+      eexists. eexists. reflexivity.
+    + destruct (Hk O m eq_refl) as [Q|[Q1 Q2]]; [congruence|]. rewrite Q1. cbn [Z.eqb]. subst hs.
+      destruct (IH (Datatypes.S i) trs true (Some i) A Hnd Hss' Hk') as [out [sm' E]]. rewrite E. cbn [bind].
+      eexists. eexists. reflexivity.
+Qed.
+
+(* the sections createOffer gives to transceivers without mid *)
+Fixpoint new_secs_ok (rest : list transceiver) (i : nat) (mids : list Z) (ss : list (Z * Z)) : Prop :=
+  match rest with
+  | [] => mids = []
+  | t :: ts =>
+      match t_mid t with
+      | Some _ => new_secs_ok ts i mids ss
+      | None => match mids with
+                | mu :: mids' => nth_error ss i = Some (t_kind t, mu) /\ new_secs_ok ts (Datatypes.S i) mids' ss
+                | [] => False
+                end
+      end
+  end.
+
+Lemma offer_new_secs : forall rest next mids rest' out mids' ss,
+  offer_new rest next mids = Ok (rest', out, mids') ->
+  (forall j m, nth_error out j = Some m -> nth_error ss (next + j) = Some (m_kind m, m_mid m)) ->
+  new_secs_ok rest next (map m_mid out) ss.
+Proof.
+  induction rest as [|t ts IH]; intros next mids rest' out mids' ss H Hss; cbn [offer_new] in H; cbn [new_secs_ok].
+  - inversion H; subst. reflexivity.
+  - destruct (t_mid t) eqn:Em.
+    + bind_inv H r Hr. destruct r as [[a b] c]. inversion H; subst. eapply IH; eauto.
+    + bind_inv H m Hm. bind_inv H r Hr. destruct r as [[a b] c]. inversion H; subst. cbn [map m_mid media_for_transceiver].
+      split.
+      * specialize (Hss O _ eq_refl). rewrite Nat.add_0_r in Hss. cbn in Hss. exact Hss.
+      * eapply IH; eauto. intros j x Hj. specialize (Hss (Datatypes.S j) x Hj). rewrite Nat.add_succ_r in Hss. exact Hss.
+Qed.
+
+Lemma assign_new_ali : forall rest pre i mids0 ss mids,
+  ali i mids0 (pre ++ rest) ss -> NoDup (map snd ss) ->
+  (forall y, In y pre -> t_mid y <> None) ->
+  new_secs_ok rest i mids ss -> (forall mu, In mu mids -> ~ In mu mids0) ->
+  (forall y, In y rest -> is_av (t_kind y) = true) ->
+  ali (i + length mids) mids0 (pre ++ assign_new rest i mids) ss.
+Proof.
+  induction rest as [|t ts IH]; intros pre i mids0 ss mids A Hnd Hpre Hns Hfresh Hkind; cbn [new_secs_ok assign_new] in *.
+  - subst mids. cbn. rewrite Nat.add_0_r. exact A.
+  - destruct (t_mid t) as [x|] eqn:Em.
+    + replace (pre ++ t :: assign_new ts i mids) with ((pre ++ [t]) ++ assign_new ts i mids) by (rewrite <- app_assoc; reflexivity).
+      apply IH; auto.
+      * rewrite <- app_assoc. exact A.
+      * intros y Hy. apply in_app_or in Hy. destruct Hy as [Hy|[<-|[]]]; [apply Hpre; exact Hy | congruence].
+      * intros y Hy. apply Hkind. right. exact Hy.
+    + destruct mids as [|mu mids']; [contradiction|]. destruct Hns as [Hi Hns].
+      replace (pre ++ set_mid mu (set_mline i t) :: assign_new ts (Datatypes.S i) mids')
+        with ((pre ++ [set_mid mu (set_mline i t)]) ++ assign_new ts (Datatypes.S i) mids') by (rewrite <- app_assoc; reflexivity).
+      cbn [length]. replace (i + Datatypes.S (length mids'))%nat with (Datatypes.S i + length mids')%nat by lia.
+      apply IH; auto.
+      * rewrite <- app_assoc. cbn [app].
+        apply (ali_step_av i mids0 pre t _ ts ss (t_kind t) mu); auto.
+        -- apply Hkind. left. reflexivity.
+        -- split; [reflexivity | left; exact Em].
+        -- intros y Hy [Hk [Hc|Hc]]; [exact (Hpre y Hy Hc)|].
+           destruct (li_mid _ _ _ _ A y mu (in_or_app _ _ _ (or_introl Hy)) Hc) as [j [_ [E2 E3]]].
+           destruct (secs_nth_mid_inj _ _ _ _ _ _ Hnd E2 Hi) as [-> _].
+           destruct E3 as [E3|E3]; [lia | apply (Hfresh mu (or_introl eq_refl) E3)].
+        -- rewrite Em. reflexivity.
+      * intros y Hy. apply in_app_or in Hy. destruct Hy as [Hy|[<-|[]]]; [apply Hpre; exact Hy | cbn; discriminate].
+      * intros m Hm. apply Hfresh. right. exact Hm.
+      * intros y Hy. apply Hkind. right. exact Hy.
+Qed.
+
+Lemma offer_new_total : forall rest next mids, exists rest' out mids', offer_new rest next mids = Ok (rest', out, mids').
+Proof.
+  induction rest as [|t ts IH]; intros next mids; cbn [offer_new].
+  - eexists. eexists. eexists. reflexivity.
+  - destruct (t_mid t).
+    + destruct (IH next mids) as [a [b [c E]]]. rewrite E. cbn [bind]. eexists. eexists. eexists. reflexivity.
+    + destruct (allocate_mid_ok mids) as [m Hm]. rewrite Hm. cbn [bind].
+      destruct (IH (Datatypes.S next) (m :: mids)) as [a [b [c E]]]. rewrite E. cbn [bind]. eexists. eexists. eexists. reflexivity.
+Qed.
+
+Lemma offer_new_kinds : forall rest next mids rest' out mids', offer_new rest next mids = Ok (rest', out, mids') ->
+  forall m, In m out -> exists t, In t rest /\ m_kind m = t_kind t.
+Proof.
+  induction rest as [|t ts IH]; intros next mids rest' out mids' H m Hm; cbn [offer_new] in H.
+  - inversion H; subst. destruct Hm.
+  - destruct (t_mid t).
+    + bind_inv H r Hr. destruct r as [[a b] c]. inversion H; subst.
+      destruct (IH _ _ _ _ _ Hr m Hm) as [x [Hx E]]. exists x. split; [right; exact Hx | exact E].
+    + bind_inv H mu Hmu. bind_inv H r Hr. destruct r as [[a b] c]. inversion H; subst.
+      destruct Hm as [<-|Hm]; [exists t; split; [left; reflexivity | reflexivity]|].
+      destruct (IH _ _ _ _ _ Hr m Hm) as [x [Hx E]]. exists x. split; [right; exact Hx | exact E].
+Qed.
+
+(* elements of assign_new: untouched transceivers with a mid, or a new (mid, m-line) on one without *)
+Lemma assign_new_elem : forall rest i mids ss t', new_secs_ok rest i mids ss -> In t' (assign_new rest i mids) ->
+  t_mid t' <> None /\
+  exists t, In t rest /\ t_kind t' = t_kind t /\ t_transport t' = t_transport t /\ t_preferred t' = t_preferred t /\
+            t_codecs t' = t_codecs t /\ t_exts t' = t_exts t /\ t_direction t' = t_direction t /\
+            (t_mid t <> None -> t' = t).
+Proof.
+  induction rest as [|t ts IH]; intros i mids ss t' Hns Hin; cbn [new_secs_ok assign_new] in *; [destruct Hin|].
+  destruct (t_mid t) as [x|] eqn:Em.
+  - destruct Hin as [<-|Hin].
+    + split; [congruence|]. exists t. repeat split; auto. left. reflexivity.
+    + destruct (IH _ _ _ _ Hns Hin) as [Q1 [t0 [Q2 Q3]]]. split; [exact Q1|]. exists t0. split; [right; exact Q2 | exact Q3].
+  - destruct mids as [|mu mids']; [contradiction|]. destruct Hns as [_ Hns]. destruct Hin as [<-|Hin].
+    + split; [cbn; discriminate|]. exists t. cbn. repeat split; auto. intro Hc. congruence.
+    + destruct (IH _ _ _ _ Hns Hin) as [Q1 [t0 [Q2 Q3]]]. split; [exact Q1|]. exists t0. split; [right; exact Q2 | exact Q3].
+Qed.
+
+Lemma assign_new_keeps : forall rest i mids t, In t rest -> t_mid t <> None -> In t (assign_new rest i mids).
+Proof.
+  induction rest as [|x ts IH]; intros i mids t Hin Hm; [destruct Hin|]. cbn [assign_new].
+  destruct Hin as [->|Hin].
+  - destruct (t_mid t); [left; reflexivity | congruence].
+  - destruct (t_mid x); [right; apply IH; auto|]. destruct mids; [right; exact Hin | right; apply IH; auto].
+Qed.
+
+Lemma offer_new_from : forall rest next mids rest' out mids', offer_new rest next mids = Ok (rest', out, mids') ->
+  forall pre, Forall (from_transceiver (pre ++ assign_new rest next (map m_mid out))) out.
+Proof.
+  induction rest as [|t ts IH]; intros next mids rest' out mids' H pre; cbn [offer_new] in H.
+  - inversion H; subst. constructor.
+  - destruct (t_mid t) eqn:Em.
+    + bind_inv H r Hr. destruct r as [[a b] c]. inversion H; subst. cbn [assign_new]. rewrite Em.
+      replace (pre ++ t :: assign_new ts next (map m_mid out)) with ((pre ++ [t]) ++ assign_new ts next (map m_mid out))
+        by (rewrite <- app_assoc; reflexivity).
+      eapply IH; eauto.
+    + bind_inv H mu Hmu. bind_inv H r Hr. destruct r as [[a b] c]. inversion H; subst.
+      cbn [map m_mid media_for_transceiver assign_new]. rewrite Em.
+      constructor.
+      * intros _. exists (set_mid mu (set_mline next t)). split; [apply in_or_app; right; left; reflexivity|]. cbn. repeat split; auto.
+      * replace (pre ++ set_mid mu (set_mline next t) :: assign_new ts (Datatypes.S next) (map m_mid b))
+          with ((pre ++ [set_mid mu (set_mline next t)]) ++ assign_new ts (Datatypes.S next) (map m_mid b))
+          by (rewrite <- app_assoc; reflexivity).
+        eapply IH; eauto.
+Qed.
+
+(* setLocalDescription(offer) on the sections that already existed: nothing changes *)
+Lemma assign_mids_noop : forall ss bound ms i p,
+  (forall j m, nth_error ms j = Some m -> nth_error ss (i + j) = Some (m_kind m, m_mid m)) ->
+  (i + length ms <= bound)%nat ->
+  (forall j m, nth_error ms j = Some m -> is_av (m_kind m) = true \/ m_kind m = 2) ->
+  (forall t j, In t (p_trs p) -> t_mline t = Some j -> (j < bound)%nat -> exists k mu, nth_error ss j = Some (k, mu) /\ t_mid t = Some mu) ->
+  (forall j k mu, nth_error ss j = Some (k, mu) -> is_av k = true -> (j < bound)%nat -> exists t, In t (p_trs p) /\ t_mline t = Some j) ->
+  (forall j mu, nth_error ss j = Some (2, mu) -> (j < bound)%nat -> exists s, p_sctp p = Some s /\ s_mid s = Some mu) ->
+  exists p', assign_mids ms i p = Ok p' /\ p_trs p' = p_trs p /\ p_sctp p' = p_sctp p /\ p_transports p' = p_transports p /\
+             same_descs p p' /\ incl (p_seen p) (p_seen p') /\ incl (map m_mid ms) (p_seen p') /\
+             (forall mu, In mu (p_seen p') -> In mu (p_seen p) \/ In mu (map m_mid ms)) /\
+             p_sctp_mline p' = p_sctp_mline p /\ p_policy p' = p_policy p.
+Proof.
+  intros ss bound. induction ms as [|m ms IH]; intros i p Hss Hb Hk H1 H2 H3; cbn [assign_mids].
+  - exists p. repeat split; auto using incl_refl; try (unfold same_descs; tauto). intros x [].
+  - pose proof (Hss O m eq_refl) as Hi. rewrite Nat.add_0_r in Hi. cbn [length] in Hb.
+    assert (Hss' : forall j x, nth_error ms j = Some x -> nth_error ss (Datatypes.S i + j) = Some (m_kind x, m_mid x)).
+    { intros j x Hj. specialize (Hss (Datatypes.S j) x Hj). rewrite Nat.add_succ_r in Hss. exact Hss. }
+    assert (Hk' : forall j x, nth_error ms j = Some x -> is_av (m_kind x) = true \/ m_kind x = 2)
+      by (intros j x Hj; apply (Hk (Datatypes.S j) x Hj)).
+    destruct (sadd_incl (m_mid m) (p_seen p)) as [S1 S2].
+    assert (Fin : forall p1, p_trs p1 = p_trs p -> p_sctp p1 = p_sctp p -> p_transports p1 = p_transports p ->
+                  same_descs p p1 -> p_seen p1 = sadd (m_mid m) (p_seen p) -> p_sctp_mline p1 = p_sctp_mline p -> p_policy p1 = p_policy p ->
+                  exists p', assign_mids ms (Datatypes.S i) p1 = Ok p' /\ p_trs p' = p_trs p /\ p_sctp p' = p_sctp p /\
+                    p_transports p' = p_transports p /\ same_descs p p' /\ incl (p_seen p) (p_seen p') /\
+                    incl (map m_mid (m :: ms)) (p_seen p') /\
+                    (forall mu, In mu (p_seen p') -> In mu (p_seen p) \/ In mu (map m_mid (m :: ms))) /\
+                    p_sctp_mline p' = p_sctp_mline p /\ p_policy p' = p_policy p).
+    { intros p1 E1 E2 E3 E4 E5 E6 E7.
+      destruct (IH (Datatypes.S i) p1) as [p' [I1 [I2 [I3 [I4 [I5 [I6 [I7 [I8 [I9 I10]]]]]]]]]]; auto; try lia.
+      - rewrite E1. exact H1.
+      - rewrite E1. exact H2.
+      - rewrite E2. exact H3.
+      - exists p'. split; [exact I1|]. split; [congruence|]. split; [congruence|]. split; [congruence|].
+        split; [eapply same_descs_trans; eauto|]. rewrite E5 in I6, I8.
+        split; [eapply incl_tran; eauto|].
+        split; [intros z [<-|Hz]; [apply I6; exact S2 | apply I7; exact Hz]|].
+        split; [|split; congruence].
+        intros mu Hmu. destruct (I8 mu Hmu) as [Q|Q]; [|right; right; exact Q].
+        unfold sadd in Q. destruct (existsb (Z.eqb (m_mid m)) (p_seen p)); [left; exact Q|].
+        destruct Q as [<-|Q]; [right; left; reflexivity | left; exact Q]. }
+    destruct (is_av (m_kind m)) eqn:Eav.
+    + cbn [p_trs set_seen]. destruct (H2 i _ _ Hi Eav ltac:(lia)) as [t [Hin Hl]].
+      apply In_nth_error in Hin. destruct Hin as [k0 Hk0].
+      destruct (find_idx (mline_is i) (p_trs p)) as [k|] eqn:Ef.
+      * destruct (find_idx_nth _ _ _ _ Ef) as [t1 [Ht1 [Hml _]]]. apply mline_is_true in Hml.
+        destruct (H1 t1 i (nth_error_In _ _ Ht1) Hml ltac:(lia)) as [k' [mu' [E1 E2]]].
+        rewrite Hi in E1. inversion E1; subst k' mu'.
+        assert (Eu : upd k (set_mid (m_mid m)) (p_trs p) = p_trs p).
+        { apply upd_id. intros x Hx. rewrite Ht1 in Hx. inversion Hx; subst x. apply set_mid_same. exact E2. }
+        rewrite Eu. apply Fin; cbn; auto. unfold same_descs. cbn. tauto.
+      * exfalso. pose proof (find_idx_none _ _ _ Ef t (nth_error_In _ _ Hk0)) as Q. unfold mline_is in Q. rewrite Hl in Q. cbn in Q.
+        rewrite Nat.eqb_refl in Q. discriminate.
+    + destruct (Hk O m eq_refl) as [Q|Q]; [congruence|]. rewrite Q. cbn [Z.eqb]. cbn [p_sctp set_seen].
+      rewrite Q in Hi. destruct (H3 i _ Hi ltac:(lia)) as [s [Es Hm]].
+      assert (Eq : mkSctp (Some (m_mid m)) (s_bundled s) (s_transport s) = s) by (destruct s; cbn in *; subst; reflexivity).
+      destruct (Fin (set_sctp (set_seen p (sadd (m_mid m) (p_seen p))) (Some s))) as [p' [I1 I2]]; cbn; auto.
+      { unfold same_descs. cbn. tauto. }
+      exists p'. split; [|exact I2]. rewrite Es, Eq. exact I1.
+Qed.
+
+Lemma ali_prefix : forall n mids0 trs ss, ali 0 mids0 trs ss ->
+  (forall j, (j < n)%nat -> exists k mu, nth_error ss j = Some (k, mu) /\ In mu mids0) -> ali n mids0 trs ss.
+Proof.
+  induction n as [|n IH]; intros mids0 trs ss A H; [exact A|].
+  assert (An : ali n mids0 trs ss) by (apply IH; auto).
+  destruct (H n ltac:(lia)) as [k [mu [Hn Hin]]].
+  destruct (is_av k) eqn:Eav.
+  - eapply ali_advance; eauto. eapply (li_sec _ _ _ _ An); eauto.
+  - eapply ali_skip; eauto.
+Qed.
+
+Lemma wf_merged : forall T a, wf T a -> merged_media a = desc_media (local_description a) /\
+  secs_of (desc_media (local_description a)) = S a.
+Proof.
+  intros T a W. split; [|reflexivity]. unfold merged_media. apply skipn_all_length.
+  pose proof (wf_secs _ _ W) as E. unfold S, sections in E.
+  rewrite <- (map_length (fun m => (m_kind m, m_mid m)) (desc_media (local_description a))), <- E. apply map_length.
+Qed.
+
+Lemma wf_inv_desc : forall T a, wf T a -> inv_desc a.
+Proof.
+  intros T a W. destruct (wf_merged _ _ W) as [E1 E2]. unfold inv_desc. rewrite E1.
+  rewrite <- secs_of_mids, E2. split; [apply (wf_nodup _ _ W) | apply (wf_seen _ _ W)].
+Qed.
+
+Lemma offer_phase : forall fixed T a trs0,
+  wf T a -> offer_codecs T (p_trs a) = Ok trs0 ->
+  exists a1 offer a2,
+    create_offer T a = Ok (a1, offer) /\ set_local_description fixed a1 offer = Ok a2 /\
+    wfs T a2 (secs_of (d_media offer)) /\ extends (secs_of (d_media offer)) (S a) /\
+    NoDup (map m_mid (d_media offer)) /\ app_unique (secs_of (d_media offer)) /\ kinds_ok (secs_of (d_media offer)) /\
+    (forall t, In t (p_trs a2) -> offered T t /\ t_mid t <> None) /\
+    Forall (from_transceiver (p_trs a2)) (d_media offer).
+Proof.
+  intros fixed T a trs0 W Hoc.
+  pose proof W as [W1 W2 W3 W4 W5 W6 W7 W8 W9 W10 W11].
+  destruct (wf_merged _ _ W) as [Em Es]. set (L := desc_media (local_description a)) in *.
+  destruct (offer_codecs_spec _ _ _ Hoc) as [C1 [C2 C3]].
+  assert (A0 : aligned trs0 (S a)) by (eapply aligned_keys; [symmetry; apply map_tinfo_akey; exact C1 | exact W6]).
+  set (n0 := length L).
+  assert (En0 : length (S a) = n0) by (rewrite <- Es; unfold secs_of; apply map_length).
+  (* existing sections *)
+  assert (HssL : forall j m, nth_error L j = Some m -> nth_error (S a) (0 + j) = Some (m_kind m, m_mid m)).
+  { intros j m Hj. rewrite <- Es. apply nth_error_secs. exact Hj. }
+  assert (HkL : forall j m, nth_error L j = Some m -> is_av (m_kind m) = true \/ (m_kind m = 2 /\ (match p_sctp a with Some _ => true | None => false end) = true)).
+  { intros j m Hj. pose proof (HssL j m Hj) as Hs. cbn in Hs. apply nth_error_In in Hs.
+    destruct (W5 _ Hs) as [Q|Q]; [left; exact Q|]. cbn in Q. right. split; [exact Q|].
+    rewrite Q in Hs. destruct (W7 _ Hs) as [s [Hs' _]]. rewrite Hs'. reflexivity. }
+  destruct (offer_existing_total (S a) L 0 trs0 (match p_sctp a with Some _ => true | None => false end) (p_sctp_mline a) A0 W3 HssL HkL)
+    as [out1 [sm1 E1]].
+  assert (HkL' : forall j m, nth_error L j = Some m -> is_av (m_kind m) = true \/ m_kind m = 2)
+    by (intros j m Hj; destruct (HkL j m Hj) as [Q|[Q _]]; auto).
+  destruct (offer_existing_same _ _ _ _ _ _ _ _ _ E1 A0 W3 HssL HkL') as [_ [X2 [X3 X4]]].
+  assert (Elen1 : length out1 = n0).
+  { rewrite <- (map_length (fun m => (m_kind m, m_mid m)) out1). fold (secs_of out1). rewrite X2. unfold secs_of. apply map_length. }
+  (* new sections *)
+  destruct (offer_new_total trs0 (length out1) (p_seen a)) as [trs2 [out2 [mids2 E2]]].
+  destruct (offer_new_mids _ _ _ _ _ _ E2) as [N1 [N2 [N3 [N4 N5]]]].
+  assert (E3 : exists out3 sm3,
+             match p_sctp a with
+             | Some s => match s_mid s with
+                         | None => m <- allocate_mid mids2 ;; Ok ([media_for_sctp m RAuto], Some (length out1 + length out2)%nat)
+                         | Some _ => Ok ([], sm1)
+                         end
+             | None => Ok ([], sm1)
+             end = Ok (out3, sm3) /\
+             ((out3 = [] /\ (forall s, p_sctp a = Some s -> s_mid s <> None)) \/
+              (exists m s, out3 = [media_for_sctp m RAuto] /\ p_sctp a = Some s /\ s_mid s = None /\ ~ In m mids2))).
+  { destruct (p_sctp a) as [s|] eqn:Esc.
+    - destruct (s_mid s) eqn:Esm.
+      + eexists. eexists. split; [reflexivity|]. left. split; [reflexivity|]. intros s' Hs'. inversion Hs'; subst. congruence.
+      + destruct (allocate_mid_ok mids2) as [m Hm]. rewrite Hm. cbn [bind]. eexists. eexists. split; [reflexivity|].
+        right. exists m, s. apply allocate_mid_fresh in Hm. tauto.
+    - eexists. eexists. split; [reflexivity|]. left. split; [reflexivity|]. intros s Hs. discriminate. }
+  destruct E3 as [out3 [sm3 [E3 Hout3]]].
+  set (ms := out1 ++ out2 ++ out3).
+  set (offer := mkDesc 0 ms (map m_mid ms)).
+  set (a1 := set_sctp_mline (set_trs a trs2) sm3).
+  assert (Hco : create_offer T a = Ok (a1, offer)).
+  { unfold create_offer. rewrite W1, Hoc. cbn [bind]. fold (merged_media a). rewrite Em. fold L.
+    rewrite E1. cbn [bind]. rewrite E2. cbn [bind]. rewrite E3. cbn [bind]. reflexivity. }
+  exists a1, offer.
+  (* the section list of the offer *)
+  set (ss := secs_of ms).
+  assert (Ess : ss = S a ++ secs_of out2 ++ secs_of out3).
+  { subst ss ms. rewrite !secs_of_app, X2, Es. reflexivity. }
+  assert (Hnd : NoDup (map m_mid ms)).
+  { destruct (create_offer_spec _ _ _ _ Hco) as [_ [_ [_ [_ O5]]]]. apply O5. eapply wf_inv_desc; eauto. }
+  assert (Hnd' : NoDup (map snd ss)) by (subst ss; rewrite secs_of_mids; exact Hnd).
+  assert (Hext : extends ss (S a)).
+  { intros j x Hj. rewrite Ess. rewrite nth_error_app1; [exact Hj | apply nth_error_Some; congruence]. }
+  assert (Hss2 : forall j m, nth_error out2 j = Some m -> nth_error ss (length out1 + j) = Some (m_kind m, m_mid m)).
+  { intros j m Hj. rewrite Ess. rewrite nth_error_app2 by lia. rewrite En0, Elen1.
+    replace (n0 + j - n0)%nat with j by lia. rewrite nth_error_app1 by (unfold secs_of; rewrite map_length; apply nth_error_Some; congruence).
+    apply nth_error_secs. exact Hj. }
+  assert (Hk2 : forall m, In m out2 -> is_av (m_kind m) = true).
+  { intros m Hm. destruct (offer_new_kinds _ _ _ _ _ _ E2 m Hm) as [t [Ht ->]]. apply (al_kind _ _ A0). exact Ht. }
+  (* setLocalDescription(offer) *)
+  set (p1 := set_state a1 HaveLocalOffer).
+  assert (Hp1 : p_trs p1 = [] ++ trs2) by reflexivity.
+  (* part 1: existing sections change nothing *)
+  assert (Htrs2 : forall y, In y trs2 -> (In y trs0 /\ t_mid y <> None) \/ (exists n, (length out1 <= n)%nat /\ t_mline y = Some n /\ t_mid y = None)).
+  { clear - E2. revert E2. generalize (length out1) (p_seen a) trs2 out2 mids2.
+    induction trs0 as [|t ts IH]; intros next mids ts' out mids' H y Hy; cbn [offer_new] in H.
+    - inversion H; subst. destruct Hy.
+    - destruct (t_mid t) eqn:Em.
+      + bind_inv H r Hr. destruct r as [[a0 b] c]. inversion H; subst.
+        destruct Hy as [<-|Hy]; [left; split; [left; reflexivity | congruence]|].
+        destruct (IH _ _ _ _ _ Hr y Hy) as [[Q1 Q2]|[n [Q1 Q2]]]; [left; split; [right; exact Q1 | exact Q2] | right; exists n; auto].
+      + bind_inv H m Hm. bind_inv H r Hr. destruct r as [[a0 b] c]. inversion H; subst.
+        destruct Hy as [<-|Hy]; [right; exists next; cbn; auto|].
+        destruct (IH _ _ _ _ _ Hr y Hy) as [[Q1 Q2]|[n [Q1 Q2]]]; [left; split; [right; exact Q1 | exact Q2] | right; exists n; split; [lia | exact Q2]]. }
+  assert (Hkeep : forall t, In t trs0 -> t_mid t <> None -> In t trs2).
+  { clear - E2. revert E2. generalize (length out1) (p_seen a) trs2 out2 mids2.
+    induction trs0 as [|x ts IH]; intros next mids ts' out mids' H t Hin Hm; [destruct Hin|]. cbn [offer_new] in H.
+    destruct (t_mid x) eqn:Ex.
+    - bind_inv H r Hr. destruct r as [[a0 b] c]. inversion H; subst. destruct Hin as [->|Hin]; [left; reflexivity | right; eapply IH; eauto].
+    - bind_inv H m Hm'. bind_inv H r Hr. destruct r as [[a0 b] c]. inversion H; subst.
+      destruct Hin as [->|Hin]; [congruence | right; eapply IH; eauto]. }
+  destruct (assign_mids_noop ss n0 out1 0 p1) as [q1 [Q1 [Q2 [Q3 [Q4 [Q5 [Q6 [Q7 [Q8 [Q9 Q10]]]]]]]]]].
+  { intros j m Hj. cbn. rewrite Ess. rewrite nth_error_app1.
+    - rewrite <- X2. apply nth_error_secs. exact Hj.
+    - rewrite En0, <- Elen1. apply nth_error_Some. congruence. }
+  { cbn. lia. }
+  { intros j m Hj. assert (Hs : In (m_kind m, m_mid m) (S a)).
+    { rewrite <- X2. eapply nth_error_In. apply nth_error_secs. exact Hj. }
+    destruct (W5 _ Hs) as [Q|Q]; auto. }
+  { intros t j Hin Hl Hlt. cbn in Hin. destruct (Htrs2 t Hin) as [[I1 I2]|[n [I1 [I2 _]]]].
+    - destruct (t_mid t) as [mu|] eqn:Emid; [|congruence].
+      destruct (al_mid _ _ A0 t mu I1 Emid) as [j' [G1 G2]]. rewrite Hl in G1. inversion G1; subst j'.
+      exists (t_kind t), mu. split; [apply Hext; exact G2 | reflexivity].
+    - rewrite Hl in I2. inversion I2. lia. }
+  { intros j k mu Hj Hav Hlt. cbn. assert (Hj' : nth_error (S a) j = Some (k, mu)).
+    { rewrite Ess in Hj. rewrite nth_error_app1 in Hj by lia. exact Hj. }
+    destruct (al_sec _ _ A0 j k mu Hj' Hav) as [t [Hin Hm]].
+    destruct (al_mid _ _ A0 t mu Hin Hm) as [j' [G1 G2]].
+    destruct (secs_nth_mid_inj _ _ _ _ _ _ W3 G2 Hj') as [-> _].
+    exists t. split; [apply Hkeep; [exact Hin | congruence] | exact G1]. }
+  { intros j mu Hj Hlt. cbn. assert (Hj' : nth_error (S a) j = Some (2, mu)).
+    { rewrite Ess in Hj. rewrite nth_error_app1 in Hj by lia. exact Hj. }
+    apply W7. eapply nth_error_In; eauto. }
+  (* part 2: new audio/video sections *)
+  destruct (new_part trs0 [] (length out1) (p_seen a) trs2 out2 mids2 E2) with (p := q1)
+    as [q2 [R1 [R2 [R3 [R4 [R5 [R6 [R7 R8]]]]]]]].
+  { intros y []. }
+  { intros y Hy. destruct (t_mid y) as [mu|] eqn:Emid.
+    - intros j Hj. destruct (al_mid _ _ A0 y mu Hy Emid) as [j' [G1 G2]]. rewrite Hj in G1. inversion G1; subst j'.
+      rewrite Elen1, <- En0. apply nth_error_Some. congruence.
+    - apply (al_none _ _ A0 y Hy Emid). }
+  { intros y Hy. apply (al_kind _ _ A0 y Hy). }
+  { rewrite Q2. reflexivity. }
+  cbn [app] in R2.
+  (* part 3: the new application section *)
+  assert (P3 : exists q3, assign_mids out3 (length out1 + length out2) q2 = Ok q3 /\ p_trs q3 = p_trs q2 /\
+               p_transports q3 = p_transports q2 /\ same_descs q2 q3 /\ incl (p_seen q2) (p_seen q3) /\
+               incl (map m_mid out3) (p_seen q3) /\
+               ((out3 = [] /\ p_sctp q3 = p_sctp a) \/
+                (exists m s, out3 = [media_for_sctp m RAuto] /\ p_sctp a = Some s /\ s_mid s = None /\
+                             p_sctp q3 = Some (mkSctp (Some m) (s_bundled s) (s_transport s))))).
+  { assert (Esq : p_sctp q2 = p_sctp a) by (rewrite R3, Q3; reflexivity).
+    destruct Hout3 as [[-> Hs]|[m [s [-> [Hs [Hm Hf]]]]]].
+    - exists q2. cbn. repeat split; auto using incl_refl; try (unfold same_descs; tauto). intros x [].
+    - cbn [assign_mids media_for_sctp m_kind is_av Z.eqb orb m_mid]. cbn [p_sctp set_seen]. rewrite Esq, Hs.
+      eexists. split; [reflexivity|]. cbn. destruct (sadd_incl m (p_seen q2)) as [S1 S2].
+      repeat split; auto; try (unfold same_descs; tauto).
+      + intros x [<-|[]]. exact S2.
+      + right. exists m, s. auto. }
+  destruct P3 as [q3 [T1 [T2 [T3 [T4 [T5 [T6 T7]]]]]]].
+  assert (Ham : assign_mids (d_media offer) 0 p1 = Ok q3).
+  { subst offer ms. cbn [d_media]. rewrite assign_mids_app, Q1. cbn [bind]. rewrite assign_mids_app. cbn [Nat.add].
+    rewrite R1. cbn [bind]. exact T1. }
+  set (q4 := set_transports q3 (map (fun t => if tr_live t then tr_set_ice true t else t) (p_transports q3))).
+  set (a2 := set_local q4 (p_cur_local q4) (Some offer)).
+  assert (Hsl : set_local_description fixed a1 offer = Ok a2).
+  { unfold set_local_description. cbn [p_state a1 set_sctp_mline set_trs]. rewrite W1.
+    unfold validate_description. cbn [d_type offer Z.eqb p_state set_sctp_mline set_trs andb negb]. rewrite W1. cbn [negb bind].
+    fold p1. rewrite Ham. cbn [bind d_type offer Z.eqb]. reflexivity. }
+  exists a2. split; [exact Hco|]. split; [exact Hsl|].
+  (* the resulting connection *)
+  assert (Etrs : p_trs a2 = assign_new trs0 (length out1) (map m_mid out2)) by (subst a2 q4; cbn; rewrite T2, R2; reflexivity).
+  assert (Hns : new_secs_ok trs0 (length out1) (map m_mid out2) ss) by (eapply offer_new_secs; eauto).
+  assert (Hali : aligned (p_trs a2) ss).
+  { rewrite Etrs. apply (ali_end (map snd (S a))).
+    assert (B0 : ali 0 (map snd (S a)) trs0 ss) by (apply ali_start; auto).
+    assert (B1 : ali n0 (map snd (S a)) trs0 ss).
+    { apply ali_prefix; [exact B0|]. intros j Hj. rewrite <- En0 in Hj.
+      destruct (nth_error (S a) j) as [[k mu]|] eqn:Ej; [|apply nth_error_None in Ej; lia].
+      exists k, mu. split; [apply Hext; exact Ej|]. apply in_map_iff. exists (k, mu). split; [reflexivity | eapply nth_error_In; eauto]. }
+    assert (B2 : ali (length out1 + length (map m_mid out2)) (map snd (S a)) ([] ++ assign_new trs0 (length out1) (map m_mid out2)) ss).
+    { apply assign_new_ali; auto.
+      - cbn. rewrite Elen1. exact B1.
+      - intros y [].
+      - intros mu Hmu Hc. apply (N2 mu Hmu). apply W4. exact Hc.
+      - intros y Hy. apply (al_kind _ _ A0 y Hy). }
+    cbn [app] in B2. rewrite map_length in B2.
+    assert (Elss : length ss = (length out1 + length out2 + length out3)%nat).
+    { subst ss ms. unfold secs_of. rewrite map_length, !app_length. lia. }
+    rewrite Elss. destruct Hout3 as [[-> _]|[m [s [-> _]]]]; cbn [length].
+    - rewrite Nat.add_0_r. exact B2.
+    - replace (length out1 + length out2 + 1)%nat with (Datatypes.S (length out1 + length out2)) by lia.
+      eapply (ali_skip _ _ _ _ 2 m); [exact B2 | | reflexivity].
+      rewrite Ess. rewrite nth_error_app2 by lia. rewrite En0, <- Elen1.
+      replace (length out1 + length out2 - length out1)%nat with (length out2) by lia.
+      rewrite nth_error_app2 by (unfold secs_of; rewrite map_length; lia).
+      unfold secs_of at 1. rewrite map_length, Nat.sub_diag. reflexivity. }
+  assert (Hsctp : (out3 = [] /\ p_sctp a2 = p_sctp a) \/
+                  (exists m s, out3 = [media_for_sctp m RAuto] /\ p_sctp a = Some s /\ s_mid s = None /\
+                               p_sctp a2 = Some (mkSctp (Some m) (s_bundled s) (s_transport s)))) by (subst a2 q4; cbn; exact T7).
+  assert (Htr : forall id, has_tr (p_transports a) id -> has_tr (p_transports a2) id).
+  { intros id Hid. subst a2 q4. cbn. apply has_tr_map; [intro t; destruct (tr_live t); [apply tr_set_ice_id | reflexivity]|].
+    rewrite T3, R4, Q4. exact Hid. }
+  assert (Hseen : incl (map m_mid ms) (p_seen a2)).
+  { subst a2 q4 ms. cbn. rewrite !map_app. intros x Hx. apply in_app_or in Hx. destruct Hx as [Hx|Hx].
+    - apply T5. apply R6. apply Q7. exact Hx.
+    - apply in_app_or in Hx. destruct Hx as [Hx|Hx]; [apply T5; apply R7; exact Hx | apply T6; exact Hx]. }
+  split.
+  { constructor.
+    - exact Hnd'.
+    - unfold ss. rewrite secs_of_mids. exact Hseen.
+    - intros s Hs. rewrite Ess in Hs. apply in_app_or in Hs. destruct Hs as [Hs|Hs]; [apply W5; exact Hs|].
+      apply in_app_or in Hs. destruct Hs as [Hs|Hs].
+      + unfold secs_of in Hs. apply in_map_iff in Hs. destruct Hs as [m [<- Hm]]. left. cbn. apply Hk2. exact Hm.
+      + destruct Hout3 as [[-> _]|[m [s0 [-> _]]]]; [destruct Hs | destruct Hs as [<-|[]]; right; reflexivity].
+    - exact Hali.
+    - intros mu Hmu. rewrite Ess in Hmu. apply in_app_or in Hmu. destruct Hmu as [Hmu|Hmu].
+      + destruct (W7 mu Hmu) as [s [Hs Hm]]. destruct Hsctp as [[_ E]|[m [s0 [_ [Hs0 [Hm0 _]]]]]].
+        * exists s. rewrite E. auto.
+        * rewrite Hs in Hs0. inversion Hs0; subst. congruence.
+      + apply in_app_or in Hmu. destruct Hmu as [Hmu|Hmu].
+        * unfold secs_of in Hmu. apply in_map_iff in Hmu. destruct Hmu as [m [E Hm]]. inversion E as [[Ek Em']].
+          pose proof (Hk2 m Hm) as Hav. rewrite Ek in Hav. discriminate.
+        * destruct Hsctp as [[-> _]|[m [s0 [-> [Hs0 [Hm0 E]]]]]]; [destruct Hmu|].
+          destruct Hmu as [Hmu|[]]. inversion Hmu; subst. eexists. split; [exact E | reflexivity].
+    - intros s mu Hs Hm. destruct Hsctp as [[_ E]|[m [s0 [Eo [Hs0 [Hm0 E]]]]]].
+      + rewrite E in Hs. rewrite Ess. apply in_or_app. left. eapply W8; eauto.
+      + rewrite E in Hs. inversion Hs; subst s. cbn in Hm. inversion Hm; subst mu.
+        rewrite Ess, Eo. apply in_or_app. right. apply in_or_app. right. left. reflexivity.
+    - intros t Hin. rewrite Etrs in Hin. destruct (assign_new_elem _ _ _ _ _ Hns Hin) as [_ [t0 [Q [_ [Qt _]]]]].
+      rewrite Qt. apply Htr. destruct (map_tinfo_In _ _ _ (eq_sym C1) Q) as [t1 [Hin1 E]]. apply tinfo_fields in E.
+      destruct E as [_ [E _]]. rewrite <- E. apply W9. exact Hin1.
+    - intros s Hs. destruct Hsctp as [[_ E]|[m [s0 [_ [Hs0 [_ E]]]]]].
+      + rewrite E in Hs. apply Htr. apply W10. exact Hs.
+      + rewrite E in Hs. inversion Hs; subst s. cbn. apply Htr. apply W10. exact Hs0.
+    - intros t Hin. rewrite Etrs in Hin. destruct (assign_new_elem _ _ _ _ _ Hns Hin) as [_ [t0 [Q [Qk [_ [Qp _]]]]]].
+      rewrite Qk, Qp. destruct (map_tinfo_In _ _ _ (eq_sym C1) Q) as [t1 [Hin1 E]]. apply tinfo_fields in E.
+      destruct E as [Ek [_ Ep]]. apply akey_fields in Ek. destruct Ek as [Ek _]. rewrite <- Ek, <- Ep. apply W11. exact Hin1. }
+  split; [exact Hext|]. split; [exact Hnd|]. split.
+  { (* at most one application section *)
+    intros j1 j2 m1 m2 H1 H2.
+    assert (Hmid : forall j mu, nth_error ss j = Some (2, mu) -> exists s, p_sctp a2 = Some s /\ s_mid s = Some mu).
+    { intros j mu Hj. apply nth_error_In in Hj. rewrite Ess in Hj. apply in_app_or in Hj. destruct Hj as [Hj|Hj].
+      - destruct (W7 mu Hj) as [s [Hs Hm]]. destruct Hsctp as [[_ E]|[m [s0 [_ [Hs0 [Hm0 _]]]]]].
+        + exists s. rewrite E. auto.
+        + rewrite Hs in Hs0. inversion Hs0; subst. congruence.
+      - apply in_app_or in Hj. destruct Hj as [Hj|Hj].
+        + unfold secs_of in Hj. apply in_map_iff in Hj. destruct Hj as [m [E Hm]]. inversion E as [[Ek Em']].
+          pose proof (Hk2 m Hm) as Hav. rewrite Ek in Hav. discriminate.
+        + destruct Hsctp as [[-> _]|[m [s0 [-> [Hs0 [Hm0 E]]]]]]; [destruct Hj|].
+          destruct Hj as [Hj|[]]. inversion Hj; subst. eexists. split; [exact E | reflexivity]. }
+    destruct (Hmid _ _ H1) as [s1 [G1 G2]]. destruct (Hmid _ _ H2) as [s2 [G3 G4]].
+    rewrite G1 in G3. inversion G3; subst s2. rewrite G2 in G4. inversion G4; subst m2.
+    destruct (secs_nth_mid_inj _ _ _ _ _ _ Hnd' H1 H2) as [E _]. exact E. }
+  split.
+  { intros s Hs. fold ss in Hs. rewrite Ess in Hs. apply in_app_or in Hs. destruct Hs as [Hs|Hs]; [apply W5; exact Hs|].
+    apply in_app_or in Hs. destruct Hs as [Hs|Hs].
+    - unfold secs_of in Hs. apply in_map_iff in Hs. destruct Hs as [m [<- Hm]]. left. cbn. apply Hk2. exact Hm.
+    - destruct Hout3 as [[-> _]|[m [s0 [-> _]]]]; [destruct Hs | destruct Hs as [<-|[]]; right; reflexivity]. }
+  split.
+  { intros t Hin. rewrite Etrs in Hin. destruct (assign_new_elem _ _ _ _ _ Hns Hin) as [Qm [t0 [Q [Qk [_ [Qp [Qc [Qx _]]]]]]]].
+    split; [|exact Qm]. unfold offered. rewrite Qk, Qp, Qc, Qx. apply C2. exact Q. }
+  { cbn [d_media offer]. unfold ms. apply Forall_app. split; [|apply Forall_app; split].
+    - eapply Forall_impl; [|exact X3]. intros m Hm Hav. destruct (Hm Hav) as [t [G1 G2]].
+      exists t. split; [|exact G2]. rewrite Etrs. apply assign_new_keeps; [exact G1|]. destruct G2 as [G2 _]. congruence.
+    - rewrite Etrs. apply (offer_new_from _ _ _ _ _ _ E2 []).
+    - destruct Hout3 as [[-> _]|[m [s0 [-> _]]]]; constructor; [|constructor]. intro Hc. cbn in Hc. discriminate. }
 Qed.
